@@ -119,6 +119,7 @@ func (E *Engine) call(m *Machine, f *Frame, x *ssa.Call, work *[]*Machine, onEnd
 	for i, a := range cc.Args {
 		args[i] = m.val(f, a)
 	}
+	E.applyAsserts(m, f, cc)
 	if cc.IsInvoke() {
 		recv := m.val(f, cc.Value)
 		f.Env[x] = E.invoke(m, f, cc, recv, args)
@@ -253,5 +254,27 @@ func (E *Engine) applyHints(m *Machine, f *Frame, cc *ssa.CallCommon) {
 			}
 		}
 		m.AssumeT(t)
+	}
+}
+
+// applyAsserts emits the site assertions of the function under verification that are registered for the call about to execute.
+func (E *Engine) applyAsserts(m *Machine, f *Frame, cc *ssa.CallCommon) {
+	if m.Top == nil || m.Top.C == nil || len(m.Top.C.Asserts) == 0 {
+		return
+	}
+	site := m.siteName(f, calleeShort(cc))
+	for _, a := range m.Top.C.Asserts {
+		if a.Site != site {
+			continue
+		}
+		ev := &Evaluator{E: E, M: m, Frame: f, Old: m.Entry, Lets: m.Top.Lets}
+		g := ev.EvalBool(a.Cl.Expr, a.Cl.Src)
+		props := a.Cl.Props
+		if len(props) == 0 {
+			props = allProps(m.Top.C)
+		}
+		E.addObl(m, &Obligation{Name: fmt.Sprintf("%s:assert@%s:%s", m.Top.Name, site, a.Cl.Label), Func: m.Top.Name, Kind: "assert",
+			Props: props, Reading: a.Cl.Reading, Goal: g, Src: a.Cl.Src})
+		m.AssumeT(g)
 	}
 }
